@@ -302,6 +302,28 @@ pub fn queries(tier: Tier) -> Vec<GenQuery> {
     ] {
         out.push(q(sql.to_string(), &["users"], &["derived"]));
     }
+    // name scoping: the same CTE name declared at two nesting levels (derived table / CTE body /
+    // siblings), read at the inner level, the outer level or both; the definitions differ on the data
+    {
+        let outer = "SELECT id, age FROM users WHERE age > 18";
+        let inner = "SELECT id + 10 AS id, age FROM users WHERE age <= 18";
+        for (oname, iname) in [("v", "v"), ("v", "w"), ("users", "v"), ("v", "users"), ("users", "users")] {
+            // inner level inside a derived table
+            out.push(q(format!("WITH {oname} AS ({outer}) SELECT id FROM (WITH {iname} AS ({inner}) SELECT id FROM {iname}) AS s"), &["users"], &["derived", "scoping"]));
+            out.push(q(format!("WITH {oname} AS ({outer}) SELECT s.id, {oname}.age FROM {oname} JOIN (WITH {iname} AS ({inner}) SELECT id - 10 AS id FROM {iname}) AS s ON {oname}.id <> s.id"), &["users"], &["derived", "scoping", "join"]));
+            // inner level inside a CTE body
+            out.push(q(format!("WITH {oname} AS ({outer}), z AS (WITH {iname} AS ({inner}) SELECT id FROM {iname}) SELECT id FROM z"), &["users"], &["derived", "scoping"]));
+            // the inner declaration must not leak to the enclosing level
+            out.push(q(format!("WITH {oname} AS ({outer}) SELECT s.id AS a, o.id AS b FROM (WITH {iname} AS ({inner}) SELECT id FROM {iname}) AS s CROSS JOIN {oname} AS o"), &["users"], &["derived", "scoping", "join"]));
+        }
+        // siblings declaring the same name
+        out.push(q(format!("SELECT a.id AS x, b.id AS y FROM (WITH v AS ({outer}) SELECT id FROM v) AS a CROSS JOIN (WITH v AS ({inner}) SELECT id FROM v) AS b"), &["users"], &["derived", "scoping", "join"]));
+        // three levels
+        out.push(q(format!("WITH v AS ({outer}) SELECT id FROM (WITH v AS ({inner}) SELECT id FROM (WITH v AS (SELECT id + 100 AS id FROM users) SELECT id FROM v) AS t) AS s"), &["users"], &["derived", "scoping"]));
+        out.push(q(format!("WITH v AS ({outer}) SELECT id FROM (WITH w AS ({inner}) SELECT id FROM (WITH x AS (SELECT id + 100 AS id FROM users) SELECT id FROM v) AS t) AS s"), &["users"], &["derived", "scoping"]));
+        // a CTE referring to an earlier one of the enclosing level while redefining it below
+        out.push(q(format!("WITH v AS ({outer}), w AS (SELECT id FROM v) SELECT id FROM (WITH v AS ({inner}) SELECT w.id FROM w JOIN v ON w.id <> v.id) AS s"), &["users"], &["derived", "scoping", "join"]));
+    }
     out.push(q("WITH c AS (SELECT user_id, sum(amount) AS s FROM orders GROUP BY user_id) SELECT u.id, c.s FROM users u LEFT JOIN c ON u.id = c.user_id".into(), &["users", "orders"], &["derived", "join", "left"]));
     out.push(q("SELECT u.id, t.s FROM users u JOIN (SELECT user_id, sum(amount) AS s FROM orders GROUP BY user_id) AS t ON u.id = t.user_id".into(), &["users", "orders"], &["derived", "join", "inner"]));
 
@@ -323,6 +345,15 @@ pub fn queries(tier: Tier) -> Vec<GenQuery> {
     out.push(q("SELECT r.city, u.id FROM ref r LEFT JOIN users u ON u.city = r.city".into(), &["users", "ref"], &["unique-propagation", "join"]));
     out.push(q("SELECT o.id, u.id AS uid FROM orders o JOIN users u ON o.user_id = u.id".into(), &["users", "orders"], &["unique-propagation", "join"]));
     out.push(q("SELECT o.id, u.id AS uid FROM orders o FULL JOIN users u ON o.user_id = u.id".into(), &["users", "orders"], &["unique-propagation", "join"]));
+    // ON clauses combining equalities on unique columns with AND / OR, both operand orders, all kinds
+    for kw in ["JOIN", "LEFT JOIN", "RIGHT JOIN", "FULL JOIN"] {
+        for on in ["m.v = o.user_id OR m.k = o.amount", "m.v = o.user_id AND m.k = o.amount", "o.user_id = m.v OR o.amount = m.k", "m.v = o.user_id OR m.v = o.id", "m.v = o.id AND m.k = o.amount", "m.v = o.id OR m.k = o.amount"] {
+            out.push(q(format!("SELECT o.id, o.user_id, m.k, m.v FROM m {kw} orders o ON {on}"), &["m", "orders"], &["unique-propagation", "join", "on-bool"]));
+            if thorough {
+                out.push(q(format!("SELECT o.id, m.k FROM orders o {kw} m ON {on}"), &["m", "orders"], &["unique-propagation", "join", "on-bool"]));
+            }
+        }
+    }
     out.push(q("SELECT id FROM users UNION ALL SELECT id FROM orders".into(), &["users", "orders"], &["unique-propagation", "setop"]));
     out.push(q("SELECT id FROM users UNION ALL SELECT id FROM users".into(), &["users"], &["unique-propagation", "setop"]));
 
